@@ -34,6 +34,15 @@ def f(n):
                 {}["k"]
             except KeyError as e:
                 raise RuntimeError(msg) from e
+        if kind == "qualified":
+            import subprocess
+            raise subprocess.CalledProcessError(2, msg)
+        if kind == "qualified_chained":
+            import subprocess
+            try:
+                {}["db"]
+            except KeyError as e:
+                raise subprocess.CalledProcessError(3, msg) from e
         exc = {"ValueError": ValueError, "KeyError": KeyError, "ImportError": ImportError, "ZeroDivisionError": ZeroDivisionError,
                "NameError": NameError, "AttributeError": AttributeError, "OSError": OSError, "UnicodeDecodeError": None,
                "AssertionError": AssertionError, "TypeError": TypeError, "RuntimeError": RuntimeError}[kind]
@@ -67,6 +76,13 @@ def texts_for(tc, rng, cache):
         cache['nonascii'] = [(real_traceback('ValueError', 2, u'caf\xe9 ☃ zq9x'), 'ValueError', u'caf\xe9 ☃ zq9x')]
         cache['huge'] = [(real_traceback('RuntimeError', 1, 'x' * 20000), 'RuntimeError', 'x' * 100)]
         cache['chained'] = [(real_traceback('chained', 2, 'outer failure'), 'RuntimeError', 'outer failure')]
+        for kind in ('qualified', 'qualified_chained'):
+            tb = real_traceback(kind, 1, 'startcmd')
+            last = tb.strip().splitlines()[-1]
+            et, _, em = last.partition(': ')
+            cache['chained'].append((tb, et, em))
+            # start-up output in front of the traceback (the text still ends with 'ExceptionType: message')
+            cache['chained'].append(('WARNING: config file not found, using defaults\nINFO: starting\n' + tb, et, em))
         cache['syntax'] = [(syntax_error_report(), None, None)]
     if tc == 'StdTraceback':
         return cache['std']
@@ -133,14 +149,24 @@ class HP(html.parser.HTMLParser):
         html.parser.HTMLParser.__init__(self, convert_charrefs=True)
         self.text = []
         self.names = set()
+        self.heads = []          # text inside <title> / <h1> / <h2> (where the page NAMES the error)
+        self._in_head = 0
 
     def handle_starttag(self, tag, attrs):
         self.names.add(tag)
         for k, _v in attrs:
             self.names.add(k)
+        if tag in ('title', 'h1', 'h2'):
+            self._in_head += 1
+
+    def handle_endtag(self, tag):
+        if tag in ('title', 'h1', 'h2') and self._in_head:
+            self._in_head -= 1
 
     def handle_data(self, data):
         self.text.append(data)
+        if self._in_head:
+            self.heads.append(data)
 
     def handle_comment(self, data):
         if MARK in data:
@@ -191,8 +217,9 @@ def observe(tc, fc, text, exc_type, exc_msg, files):
     if files:
         o['containsFiles'] = all(norm_ws(f) in alltext for f in files[:50])
     if exc_type:
-        o['namesType'] = exc_type in alltext
-        o['namesMsg'] = norm_ws(exc_msg) in alltext
+        headtext = norm_ws(' '.join(p.heads))
+        o['namesType'] = exc_type in headtext
+        o['namesMsg'] = norm_ws(exc_msg) in headtext
     o['alienMarkup'] = any(MARK in n for n in p.names)
     return o
 
